@@ -118,6 +118,9 @@ theorem pow_card_sub_one (x : Fq2) (hx : x ≠ 0) : x ^ (Gen.q * Gen.q - 1) = 1 
   have := FiniteField.pow_card_sub_one_eq_one x hx
   rwa [card] at this
 
+theorem pow_card_sub_one' (x : Fq2) (hx : x ≠ 0) : x ^ (Gen.q ^ 2 - 1) = 1 := by
+  rw [pow_two]; exact pow_card_sub_one x hx
+
 theorem xi_ne_zero : xi ≠ 0 := fun h => by
   have : (1 : Fq) = 0 := congrArg Fq2.c0 h
   exact one_ne_zero this
